@@ -53,11 +53,13 @@ package keeper
 // (verified against the value-mode view of the store: /verif/spec/extern/value_types.go.txt)
 //@ func (k Keeper) SetStakedValidator(ctx sdk.Ctx, validator types.Validator)
 //@   props C05 C06 C09
+//@   panics_declared
 //@   modifies pos.idx[validator.Address]
 //@   ensures (validator.Jailed || validator.Status != 2) ==> pos.idx[validator.Address] == old(pos.idx[validator.Address])
 //@   ensures !validator.Jailed && validator.Status == 2 ==> pos.idx[validator.Address] == upd(old(pos.idx[validator.Address]), val(validator.StakedTokens) / 1000000, true)
 //@ func (k Keeper) deleteValidatorFromStakingSet(ctx sdk.Ctx, validator types.Validator)
 //@   props C05 C06 C09
+//@   panics_declared
 //@   modifies pos.idx[validator.Address]
 //@   ensures pos.idx[validator.Address] == upd(old(pos.idx[validator.Address]), val(validator.StakedTokens) / 1000000, false)
 //@ assumed func (k Keeper) SetUnstakingValidator(ctx sdk.Ctx, val types.Validator)
@@ -159,8 +161,11 @@ package keeper
 // C04: staking moves exactly `amount` from the validator's account into the pool (or panics)
 //@ func (k Keeper) coinsFromUnstakedToStaked(ctx sdk.Ctx, validator types.Validator, amount sdk.Int)
 //@   props C04 C02
+//@   panics_declared
 //@   uses bankinv
 //@   requires validator.Address != modaddr("staked_tokens_pool")
+// no panic: the pool account exists, the amount is a well-formed coin and the validator's account covers it
+//@   requires val(amount) >= 0 && denom_ok(pp_denom) && modreg("staked_tokens_pool") && amt(auth.bal[validator.Address], pp_denom) >= val(amount)
 //@   modifies acct.id, acct.next, acct.coins, acct.addr, auth.bal[modaddr("staked_tokens_pool")], auth.has[modaddr("staked_tokens_pool")], auth.bal[validator.Address], auth.has[validator.Address]
 //@   ensures amt(auth.bal[modaddr("staked_tokens_pool")], pp_denom) == amt(old(auth.bal[modaddr("staked_tokens_pool")]), pp_denom) + val(amount)
 //@   ensures amt(auth.bal[validator.Address], pp_denom) == amt(old(auth.bal[validator.Address]), pp_denom) - val(amount)
@@ -192,16 +197,21 @@ package keeper
 // C06: staking is allowed only for an unstaked validator, with at least the minimum, funded from its own balance
 //@ func (k Keeper) ValidateValidatorStaking(ctx sdk.Ctx, validator types.Validator, amount sdk.Int) (err sdk.Error)
 //@   props C06 C04
+//@   panics_declared
+//@   panics when val(amount) < 0 || !denom_ok(pp_denom)
 //@   uses bankinv
 //@   modifies acct.id, acct.next, acct.coins, acct.addr
 //@   ensures err == nil ==> validator.Status == 0 && val(amount) >= pp_minstake && amt(auth.bal[validator.Address], pp_denom) >= val(amount) && val(amount) >= 0
+//@   ensures denom_ok(pp_denom)
 //@
 // C04/C06: StakeValidator moves exactly `amount` into the pool, records exactly that much more stake,
 // sets status Staked and (if not jailed) the index entry under the new power
 //@ func (k Keeper) StakeValidator(ctx sdk.Ctx, validator types.Validator, amount sdk.Int)
 //@   props C04 C06 C05
+//@   panics_declared
 //@   uses bankinv valinv idxinv queueinv mininv
-//@   requires validator.Address != modaddr("staked_tokens_pool") && len(validator.Address) == 20
+//@   requires validator.Address != modaddr("staked_tokens_pool") && len(validator.Address) == 20 && val(amount) < pow2(250)
+//@   requires denom_ok(pp_denom) && modreg("staked_tokens_pool") && amt(auth.bal[validator.Address], pp_denom) >= val(amount)
 //@   requires validator.Status == 0 && val(validator.StakedTokens) == 0 && val(amount) >= pp_minstake && pp_minstake >= 0 && pk_addr(validator.PublicKey) == validator.Address
 //@   requires pos.has[validator.Address] ==> pos.vals[validator.Address] == validator
 //@   requires !pos.has[validator.Address] ==> (forall p int :: !pos.idx[validator.Address][p])
@@ -216,11 +226,14 @@ package keeper
 //@
 //@ func (k Keeper) ValidateValidatorBeginUnstaking(ctx sdk.Ctx, validator types.Validator) (err sdk.Error)
 //@   props C06
+//@   panics_declared
+//@   panics when validator.Status == 2 && val(validator.StakedTokens) < pp_minstake
 //@   ensures err == nil ==> validator.Status == 2 && val(validator.StakedTokens) >= pp_minstake
 //@
 // C06: begin-unstake: status Unstaking, completion time = block time + UnstakingTime, queued there, index entry removed
 //@ func (k Keeper) BeginUnstakingValidator(ctx sdk.Ctx, validator types.Validator) (err sdk.Error)
 //@   props C06 C05
+//@   panics_declared
 //@   uses valinv idxinv queueinv mininv
 //@   requires pos.has[validator.Address] && pos.vals[validator.Address] == validator && validator.Status == 2
 //@   modifies pos.vals[validator.Address], pos.has[validator.Address], pos.idx[validator.Address], pos.stakesum, pos.queue[ctx_time(ctx) + pp_unstaking_time]
@@ -231,6 +244,7 @@ package keeper
 //@
 //@ func (k Keeper) ValidateValidatorFinishUnstaking(ctx sdk.Ctx, validator types.Validator) (err sdk.Error)
 //@   props C06
+//@   panics_declared
 //@   ensures err == nil ==> validator.Status == 1 && val(validator.StakedTokens) >= pp_minstake
 //@
 // C04/C06: finishing pays the whole recorded stake back to the validator's account and marks it Unstaked with 0 tokens
@@ -271,6 +285,8 @@ package keeper
 //@
 //@ func (k Keeper) UnjailValidator(ctx sdk.Ctx, addr sdk.Address)
 //@   props C09 C05
+//@   panics_declared
+//@   panics when !pos.has[addr] || !pos.vals[addr].Jailed
 //@   uses valinv idxinv queueinv mininv
 //@   modifies pos.vals[addr], pos.has[addr], pos.idx[addr], pos.stakesum
 //@   ensures old(pos.has[addr]) && old(pos.vals[addr]).Jailed && pos.has[addr] && !pos.vals[addr].Jailed
@@ -396,3 +412,18 @@ package keeper
 //@        && pos.sinfohas[addr] && pos.sinfo[addr].Tombstoned && pos.sinfo[addr].JailedUntil == types.DoubleSignJailEndTime
 //@   ensures [burnt] ctx_time(ctx) - timestamp <= pp_max_evidence_age ==> amt(auth.supply, pp_denom) == amt(old(auth.supply), pp_denom) - old(val(pos.vals[addr].StakedTokens))
 //@   ensures [backed] amt(auth.bal[modaddr("staked_tokens_pool")], pp_denom) - pos.stakesum == old(amt(auth.bal[modaddr("staked_tokens_pool")], pp_denom) - pos.stakesum)
+
+// ---------------------------------------------------------------- account.go
+// C02/C11: a send moves exactly `amount` of the stake denomination from one account to the other, or nothing
+//@ func (k Keeper) SendCoins(ctx sdk.Ctx, fromAddress sdk.Address, toAddress sdk.Address, amount sdk.Int) (err sdk.Error)
+//@   props C02 C11
+//@   panics_declared
+//@   panics when val(amount) < 0 || !denom_ok(pp_denom)
+//@   uses bankinv
+//@   modifies acct.id, acct.next, acct.coins, acct.addr, auth.bal[fromAddress], auth.has[fromAddress], auth.bal[toAddress], auth.has[toAddress]
+//@   ensures [atomic] err != nil ==> auth.bal[fromAddress] == old(auth.bal[fromAddress]) && auth.bal[toAddress] == old(auth.bal[toAddress])
+//@   ensures [moved] err == nil && fromAddress != toAddress ==> amt(auth.bal[fromAddress], pp_denom) == amt(old(auth.bal[fromAddress]), pp_denom) - val(amount) && amt(auth.bal[toAddress], pp_denom) == amt(old(auth.bal[toAddress]), pp_denom) + val(amount)
+//@   ensures [others] err == nil && fromAddress != toAddress ==> (forall d Str :: d != pp_denom ==> amt(auth.bal[fromAddress], d) == amt(old(auth.bal[fromAddress]), d) && amt(auth.bal[toAddress], d) == amt(old(auth.bal[toAddress]), d))
+//@   ensures [self] err == nil && fromAddress == toAddress ==> (forall d Str :: amt(auth.bal[fromAddress], d) == amt(old(auth.bal[fromAddress]), d))
+//@   ensures [covered] err == nil ==> amt(old(auth.bal[fromAddress]), pp_denom) >= val(amount)
+//@   ensures auth.supply == old(auth.supply)
